@@ -6,7 +6,10 @@ Ops (see `harness/go/cmd/c06`):
   cfg size=<n> ttl=<s> max=<m> win=<s> t0=<ms> mode=mock|real|engine [anc=<max:win_s,...>]
       (anc: the ancestors of the attached quota in the quota tree, parent first, root last;
        mode=engine: the processor is reached through the real streams.Stream built from YAML - ops
-       `arrive` → queued | blocked | pending (call in flight, not in the queue) and `tick` → to=<ids|-> adm=<ids|->)
+       `arrive` → queued | blocked | pending (call in flight, not in the queue), `tick` → to=<ids|-> adm=<ids|->,
+       `nudge ms=<n>` → ok (the clock moves by n < 100 ms, no timer fires; the next tick completes the 100 ms);
+       further cfg keys read by the harness only: pre=1 (a request-rewriting processor before the Queue),
+       qf=1 (the quota's own filter matches the traffic: its system flows exist), quota=fixed|concurrent)
   arrive id=<k> prio=<p|none>          → queued | blocked
   arrive-begin id=<k> prio=<p|none>    → at-gate | blocked     (slot reserved; held at `queue.after-slot-check`)
   arrive-end id=<k>                    → queued                (k = oldest at the gate)
@@ -62,7 +65,13 @@ def parseCfg (ws : List String) : Option (Cfg × Nat × Bool) := do
           if w == 0 then none
           pure (m, w * 1000)
         | _ => none
-  pure (⟨size, ttl * 1000, qmax, win * 1000, anc⟩, t0, mode == "real")
+  let conc ← match kv ws "quota" with
+    | none => some false
+    | some "fixed" => some false
+    | some "concurrent" => some true
+    | _ => none
+  if conc && !anc.isEmpty then none
+  pure (⟨size, ttl * 1000, qmax, win * 1000, anc, conc⟩, t0, mode == "real")
 
 /-- The critical sections the model's atomic steps stand for: (struct, field, method) ↦ the mutexes
 that must be held at every access (`x` exclusive, `r` shared, `-` none: `Request.Wait` reads the
@@ -97,7 +106,7 @@ def lockAnswer (ws : List String) : String :=
   | _, _, _ => "bad-op"
 
 structure RunSt where
-  cfg : Cfg := ⟨0, 1000, 0, 1000, []⟩
+  cfg : Cfg := ⟨0, 1000, 0, 1000, [], false⟩
   x : Sim := { s := St.init 0 }
   ready : Bool := false
   real : Bool := false
@@ -105,10 +114,11 @@ structure RunSt where
   dead : Bool := false
   held : Bool := false       -- the loop stands at the gate before a re-push
   scanned : Bool := false    -- while held: the watcher had real time for a scan since the clock last moved
-  engine : Bool := false     -- mode=engine: only `arrive` and `tick`, answers without probe logs
+  engine : Bool := false     -- mode=engine: only `arrive`, `nudge` and `tick`, answers without probe logs
+  nudged : Nat := 0          -- mode=engine: ms the clock has moved since the last tick
   q : Option QSt := none     -- level L1: the shared queue alone
   duo : Option Duo := none   -- two processors on one quota
-  cfgB : Cfg := ⟨0, 1000, 0, 1000, []⟩
+  cfgB : Cfg := ⟨0, 1000, 0, 1000, [], false⟩
   own : List (Bool × Nat) := []   -- global id ↦ (belongs to B, local id)
 
 def RunSt.s (st : RunSt) : St := st.x.s
@@ -148,7 +158,7 @@ def parseCfg2 (ws : List String) : Option (Cfg × Cfg × Nat) := do
   let win ← kvNat ws "win"
   let t0 ← kvNat ws "t0"
   if ta == 0 || tb == 0 || win == 0 then none
-  pure (⟨sa, ta * 1000, qmax, win * 1000, []⟩, ⟨sb, tb * 1000, qmax, win * 1000, []⟩, t0)
+  pure (⟨sa, ta * 1000, qmax, win * 1000, [], false⟩, ⟨sb, tb * 1000, qmax, win * 1000, [], false⟩, t0)
 
 def duoStep (cfgA cfgB : Cfg) (own : List (Bool × Nat)) (d : Duo) (op : String) (ws : List String) :
     Option (Duo × List (Bool × Nat) × String) :=
@@ -231,7 +241,7 @@ def runStep (st : RunSt) (line : String) : RunSt × String :=
     if !st.ready then (st, "bad-op")
     else if st.dead then (st, "dead")
     else if st.drained then (st, "bad-op")
-    else if st.engine && op != "arrive" && op != "tick" then (st, "bad-op")
+    else if st.engine && op != "arrive" && op != "tick" && op != "nudge" then (st, "bad-op")
     else if st.held && op != "arrive" && op != "tick-release" && op != "idle" && op != "advance" then (st, "bad-op")
     else
     let n0 := st.s.trace.length
@@ -266,7 +276,8 @@ def runStep (st : RunSt) (line : String) : RunSt × String :=
       | _, _ => (st, "bad-op")
     | "tick" =>
       if st.real || !ws.isEmpty then (st, "bad-op") else
-      let st' := st.op .tick
+      let st' := if st.engine && st.nudged > 0 then { st.op (.tickAfter (100 - st.nudged)) with nudged := 0 }
+                 else st.op .tick
       let evs := newEvents st'.s n0
       if st.engine then
         (st', s!"to={fmtIds (timeouts evs)} adm={fmtIds (evs.filterMap fun | .done i true _ => some i | _ => none)}")
@@ -305,6 +316,12 @@ def runStep (st : RunSt) (line : String) : RunSt × String :=
         if !st.held || ms > 10000 || !others.isEmpty then (st, "bad-op")
         else ({ st.op (.advance ms) with scanned := false }, "ok")
       | none => (st, "bad-op")
+    | "nudge" =>
+      match kvNat ws "ms" with
+      | some ms =>
+        if !st.engine || ms == 0 || st.nudged + ms ≥ 100 then (st, "bad-op")
+        else ({ st.op (.nudge ms) with nudged := st.nudged + ms }, "ok")
+      | none => (st, "bad-op")
     | "hold-remove" =>
       if st.real then (st, "bad-op") else (st.op .holdRemove, "ok")
     | "flush-remove" =>
@@ -331,7 +348,7 @@ def runStep (st : RunSt) (line : String) : RunSt × String :=
 /-! ### judge: rebuild the observable history from the implementation's answers -/
 
 structure JudgeSt where
-  cfg : Cfg := ⟨0, 1000, 0, 1000, []⟩
+  cfg : Cfg := ⟨0, 1000, 0, 1000, [], false⟩
   now : Nat := 0
   real : Bool := false
   hold : Bool := false
@@ -344,10 +361,12 @@ structure JudgeSt where
   isQ : Bool := false
   settled : Bool := true                -- the TTL watcher had its chance since the clock last moved
   isDuo : Bool := false                 -- two processors: `hist` is A's history, `histB` B's
-  cfgB : Cfg := ⟨0, 1000, 0, 1000, []⟩
+  cfgB : Cfg := ⟨0, 1000, 0, 1000, [], false⟩
   histB : List Ev := []
   ownB : List Nat := []                 -- global ids of B's requests
   side : Bool := false                  -- events are currently recorded on B's side
+  engine : Bool := false
+  nudged : Nat := 0
   bad : Option String := none
 
 def JudgeSt.push (s : JudgeSt) (es : List Ev) : JudgeSt :=
@@ -387,7 +406,11 @@ def judgeStep (s : JudgeSt) (op out : String) : JudgeSt :=
   match words op with
   | "cfg" :: ws =>
     match parseCfg ws with
-    | some (cfg, t0, real) => { s with cfg := cfg, now := t0, real := real }
+    | some (cfg, t0, real) => { s with cfg := cfg, now := t0, real := real, engine := kv ws "mode" == some "engine" }
+    | none => s
+  | "nudge" :: ws =>
+    match kvNat ws "ms" with
+    | some ms => if out == "ok" then { s with now := s.now + ms, nudged := s.nudged + ms } else s
     | none => s
   | "cfg2" :: ws =>
     match parseCfg2 ws with
@@ -500,11 +523,22 @@ def judgeStep (s : JudgeSt) (op out : String) : JudgeSt :=
     match kv ows "to", (kv ows "log").orElse (fun _ => (kv ows "adm").map fun a =>
         if a == "-" then "-" else ",".intercalate ((a.splitOn ",").map fun i => s!"a:{i}:1,v:{i}")) with
     | some to, some lg =>
-      let s1 := { s with now := s.now + 100 }
+      let s1 := { s with now := s.now + 100 - s.nudged, nudged := 0 }
       match parseIds to with
       | none => fail "unparsable"
       | some ids =>
         let s2 := ids.foldl (fun s i => s.verdict i false) s1
+        -- mode=engine, plain configuration: what the pass admits must be what the attached quota (as the
+        -- admissions so far determine it) and the priorities demand
+        let s2 :=
+          if s.engine && s.cfg.anc.isEmpty then
+            let want := expectedAdmissions s.cfg ((waiting s2.hist).length + 1) s2.hist s2.now
+            let got := ((kv ows "adm").bind parseIds).getD []
+            if want != got then
+              { s2 with bad := some s!"admissions-at-tick-{s2.now}-are-{fmtIds got}-but-quota-and-priorities-demand-{fmtIds want}" }
+            else s2
+          else s2
+        if s2.bad.isSome then s2 else
         if lg == "-" then s2 else
         match (lg.splitOn ",").foldlM parseLogItem s2 with
         | some s3 => s3
